@@ -219,7 +219,8 @@ def judge(ctx, c, case):
         eff_limits = (10 ** 6, 10 ** 6)   # nothing may be hidden by default limits for small tables
     if c['fmt'].endswith(";*") and c['lim_arg'] is None:
         eff_limits = (10 ** 6, 10 ** 6)
-    problems = T.check_layout(lines, c['recs'], cols, eff_limits, c['header'], c['footer'], c['titles'])
+    problems = T.check_layout(lines, c['recs'], cols, eff_limits, c['header'], c['footer'], c['titles'],
+                              first_print=not (c.get('fail_first') or c.get('rec_fmt_first')))
     for mech, detail in problems[:4]:
         ctx.violation(mech, dict(detail, fmt=c['fmt']), case)
     if problems:
